@@ -11,7 +11,7 @@ from typing import List
 
 from bounded import isolated
 from props import C01c
-from props.native_common import HELPERS, VALIDITY, add_native_functions, helper_jobs, native_assumptions, validity_jobs
+from props.native_common import HELPERS, VALIDITY, add_native_functions, helper_jobs, loader_jobs, native_assumptions, validity_jobs
 from vc.common import Report, main_wrapper, run_and_discharge
 
 PROP = 'C07'
@@ -28,6 +28,7 @@ def jobs(tier: str) -> List[tuple]:
             js.append((C01c.unit_loop, ('run_paged_loop_impl', w, 0)))
     js += helper_jobs(C01c.WIDTHS if th else (64,))
     js += validity_jobs()
+    js += loader_jobs(C01c.WIDTHS if th else (32,))
     return js
 
 
@@ -35,9 +36,10 @@ def body(tier: str, seed: int) -> int:
     rep = Report(PROP, 'quick' if tier.startswith('replay') else tier, seed, 'proof', f'./check {PROP} --tier {tier}')
     run_and_discharge(rep, jobs(tier))
     add_native_functions(rep, ('run_paged_loop_impl', 'run_flat_loop_impl') + HELPERS, 'paged loop with_ring=1 (symbolic flat pointer: flat / hybrid / paged storage), helpers; quick: w=16 loop, w=64 helpers; thorough: all widths and loops')
+    add_native_functions(rep, ('Memory_set_words',), 'bulk load before the storage decision (page-backed): loop invariant absM = entry memory + first i items masked; Rep; reference balance')
     add_native_functions(rep, VALIDITY + ('Memory_add_segment',), 'against the definition of the ghost valid-set V: loop invariants (linear scan, binary search over disjoint ordered ranges, first-intersection fast range, merge loop with a ghost witness map); width independent')
     native_assumptions(rep)
-    rep.assume('[B only] mem_decide_storage (flat-window construction and copy-in), Memory_add_segment / set_words, build_run_result (ring unrolling), run_measured_loop: exercised by the bounded layout runs, not under contract')
+    rep.assume('[B only] mem_decide_storage (flat-window construction and copy-in of the loaded pages), the page hash table, build_run_result (ring unrolling), run_measured_loop, Memory_set_words/add_segment AFTER a storage decision (API misuse): exercised by the bounded layout runs, not under contract')
     rep.notes.append('Rep (R2 flat array, R3 word range, R4 validity soundness, R5 cache coherence, R6, normalisation) preserved on every path; ring invariant ring[k % len] == ip of op k for the last len ops')
     th = tier == 'thorough'
     isolated.run(rep, 'directed', 0, seed)
